@@ -103,7 +103,8 @@ Conc(s) ==
     \* more of the catalogue (list-of-macros.md): item with label, proof, tabular, accent, horizontal space, phantom, optional arguments
     [] s = "itl"  -> <<BS,"i","t","e","m","[">>
     [] s = "ilc"  -> <<"]">>
-    [] s = "ntm"  -> <<BS,"n","e","w","t","h","e","o","r","e","m","{","t","h","m","}","{","T","m","}">>
+    \* (the title is longer than \begin{thm}: its characters must still map into the span of \begin{thm})
+    [] s = "ntm"  -> <<BS,"n","e","w","t","h","e","o","r","e","m","{","t","h","m","}","{","T","m","m","m","m","m","m","m","m","m","m","m","m","}">>
     [] s = "bth"  -> <<BS,"b","e","g","i","n","{","t","h","m","}">>
     [] s = "eth"  -> <<BS,"e","n","d","{","t","h","m","}">>
     [] s = "bp"   -> <<BS,"b","e","g","i","n","{","p","r","o","o","f","}">>
@@ -125,9 +126,16 @@ Conc(s) ==
     [] s = "acb" -> <<"}","{">>
     [] s = "gld" -> <<BS,"L","T","i","n","p","u","t","{","/","t","m","p","/","y","v","f","i","l","e","s","/","g",".","g","l","s","d","e","f","s","}">>   \* glossary database: entry ab with text abt
     [] s = "gls" -> <<BS,"g","l","s","{","a","b","}">>
+    [] s = "glsC" -> <<BS,"G","l","s","{","a","b","}">>             \* first letter capitalised
+    [] s = "glsU" -> <<BS,"G","L","S","{","a","b","}">>             \* all letters capitalised
+    \* a glossary entry defined in the document: its description is typeset, first letter capitalised, full stop added
+    [] s = "gle" -> <<BS,"n","e","w","g","l","o","s","s","a","r","y","e","n","t","r","y","{","k","}","{","n","a","m","e","=","k",",",
+                      "d","e","s","c","r","i","p","t","i","o","n","=","a"," ","{","b","}"," ","c","}">>
     [] s = "ltE" -> <<BS,"L","T","i","n","p","u","t","{","/","t","m","p","/","y","v","f","i","l","e","s","/","e",".","t","e","x","}">>   \* an empty file
     [] s = "ltD" -> <<BS,"L","T","i","n","p","u","t","{","/","t","m","p","/","y","v","f","i","l","e","s","/","d",".","t","e","x","}">>   \* contains \newcommand{\ma}{mn}
     \* languages (C12)
+    \* a language as class option: it is in force only through babel, whose own options come later and win
+    [] s = "dclF" -> <<BS,"d","o","c","u","m","e","n","t","c","l","a","s","s","[","f","r","e","n","c","h","]","{","a","r","t","i","c","l","e","}">>
     [] s = "babD" -> <<BS,"u","s","e","p","a","c","k","a","g","e","[","e","n","g","l","i","s","h",",","g","e","r","m","a","n","]","{","b","a","b","e","l","}">>
     [] s = "selD" -> <<BS,"s","e","l","e","c","t","l","a","n","g","u","a","g","e","{","g","e","r","m","a","n","}">>
     [] s = "selE" -> <<BS,"s","e","l","e","c","t","l","a","n","g","u","a","g","e","{","e","n","g","l","i","s","h","}">>
@@ -168,10 +176,14 @@ Conc(s) ==
     [] s = "mlb" -> <<BS,"l","a","b","e","l","{","k","}">> [] s = "mnn" -> <<BS,"n","o","n","u","m","b","e","r">>
     [] s = "mam" -> <<"&">> [] s = "mnl" -> <<BS,BS>>
     [] s = "ba"  -> <<BS,"b","e","g","i","n","{","a","l","i","g","n","}">> [] s = "ea" -> <<BS,"e","n","d","{","a","l","i","g","n","}">>
+    \* an equation environment with a mandatory argument (amsmath): the argument is not part of the equation
+    [] s = "bat" -> <<BS,"b","e","g","i","n","{","a","l","i","g","n","a","t","*","}","{","2","}">> [] s = "eat" -> <<BS,"e","n","d","{","a","l","i","g","n","a","t","*","}">>
     [] s = "bq"  -> <<BS,"b","e","g","i","n","{","e","q","u","a","t","i","o","n","}">> [] s = "eq" -> <<BS,"e","n","d","{","e","q","u","a","t","i","o","n","}">>
     [] s = "bd"  -> <<BS,"[">> [] s = "ed" -> <<BS,"]">> [] s = "bdd" -> <<"$","$">> [] s = "edd" -> <<"$","$">>
     \* user definitions (C09) and their uses
     [] s = "dA"  -> <<BS,"n","e","w","c","o","m","m","a","n","d","{",BS,"m","a","}","{","m","n","}">>
+    [] s = "dI"  -> <<BS,"n","e","w","c","o","m","m","a","n","d","{",BS,"m","i","}","{","$","y","$","}">>     \* a macro that stands for a formula
+    [] s = "uI"  -> <<BS,"m","i">>
     [] s = "dB"  -> <<BS,"n","e","w","c","o","m","m","a","n","d","{",BS,"m","b","}","[","1","]","{","m","#","1","n","}">>
     [] s = "dC"  -> <<BS,"n","e","w","c","o","m","m","a","n","d","{",BS,"m","c","}","[","2","]","[","d","]","{","m","#","1","n","#","2","}">>
     [] s = "dD"  -> <<BS,"n","e","w","c","o","m","m","a","n","d","{",BS,"m","d","}","[","1","]","{","#","1","#","1","}">>
@@ -220,17 +232,17 @@ EofFaults == {"FimE","FdmE","FeqE","FargE","FoptE","FvbE","FveE"}
 FaultOff(s) == CASE s = "FargE" -> 13 [] s = "FoptE" -> 5 [] s = "FaccD" -> 9 [] s = "FaccI" -> 8 [] OTHER -> 0
 OpenSyms == {"itl", "capo", "seco", "alt", "xo","ob","add","fbx","tc","fn","cap","sec","sub","uB","uC","uCo","uD","uE","uF","uG","cto"}
 MathOpen == {"mo", "mo2"}
-DispOpen == {"ba", "bq", "bd", "bdd"}
+DispOpen == {"ba", "bat", "bq", "bd", "bdd"}
 MathBody == {"my","mw","mpl","meq","mal","mfr","msb","msp","mti","mdt","mcm","mob","mcb"}
 DispBody == MathBody \cup {"mtx","mlb","mnn","mam","mnl"}
-CloserOf(o) == CASE o = "mo" -> "mc" [] o = "mo2" -> "mc2" [] o = "ba" -> "ea" [] o = "bq" -> "eq" [] o = "bd" -> "ed" [] o = "bdd" -> "edd"
-MathSyms == MathOpen \cup DispOpen \cup DispBody \cup {"mc","mc2","ea","eq","ed","edd"}
-DefSyms == {"dA","dB","dC","dD","dE","dF","dG","rB","dH","rA"}
-UseSyms == {"uA","uB","uBt","uC","uCo","uD","uE","uF","uG","uH"}
+CloserOf(o) == CASE o = "mo" -> "mc" [] o = "mo2" -> "mc2" [] o = "ba" -> "ea" [] o = "bat" -> "eat" [] o = "bq" -> "eq" [] o = "bd" -> "ed" [] o = "bdd" -> "edd"
+MathSyms == MathOpen \cup DispOpen \cup DispBody \cup {"mc","mc2","ea","eat","eq","ed","edd"}
+DefSyms == {"dA","dB","dC","dD","dE","dF","dG","rB","dH","rA","dI"}
+UseSyms == {"uA","uB","uBt","uC","uCo","uD","uE","uF","uG","uH","uI"}
 MacroOf(s) == CASE s \in {"dA","uA","rA"} -> "ma" [] s \in {"dB","rB","uB","uBt"} -> "mb" [] s \in {"dC","uC","uCo"} -> "mc"
-                [] s \in {"dD","uD"} -> "md" [] s \in {"dE","uE"} -> "me" [] s \in {"dF","uF"} -> "mf" [] s \in {"dG","uG"} -> "mg" [] s \in {"dH","uH"} -> "mh"
-MacroNames == {"ma","mb","mc","md","me","mf","mg","mh"}
-MacroChars(m) == <<BS, "m", CASE m = "ma" -> "a" [] m = "mb" -> "b" [] m = "mc" -> "c" [] m = "md" -> "d" [] m = "me" -> "e" [] m = "mf" -> "f" [] m = "mg" -> "g" [] m = "mh" -> "h">>
+                [] s \in {"dD","uD"} -> "md" [] s \in {"dE","uE"} -> "me" [] s \in {"dF","uF"} -> "mf" [] s \in {"dG","uG"} -> "mg" [] s \in {"dH","uH"} -> "mh" [] s \in {"dI","uI"} -> "mi"
+MacroNames == {"ma","mb","mc","md","me","mf","mg","mh","mi"}
+MacroChars(m) == <<BS, "m", CASE m = "ma" -> "a" [] m = "mb" -> "b" [] m = "mc" -> "c" [] m = "md" -> "d" [] m = "me" -> "e" [] m = "mf" -> "f" [] m = "mg" -> "g" [] m = "mh" -> "h" [] m = "mi" -> "i">>
 \* body of a definition: elements <<"t", ch>> (text), <<"a", k>> (parameter), <<"c", macro, elements>> (nested call with one argument)
 BodyOf(d) == CASE d = "dA" -> << <<"t","m">>, <<"t","n">> >>
                [] d = "dB" -> << <<"t","m">>, <<"a",1>>, <<"t","n">> >>
@@ -241,6 +253,7 @@ BodyOf(d) == CASE d = "dA" -> << <<"t","m">>, <<"t","n">> >>
                [] d = "dG" -> << <<"c","mb",<< <<"a",1>> >> >>, <<"t","n">> >>
                [] d = "rB" -> << <<"t","n">>, <<"a",1>> >>
                [] d = "dH" -> << <<"t","m">>, <<"a",1>> >>
+               [] d = "dI" -> << >>
                [] d = "rA" -> << <<"t","n">> >>
 BeginSyms == {"bi","be","bu","bl","bm","bp","bt","bth"}
 EndSyms == {"ei","ee","eu","el","em","ep","et","eth"}
@@ -249,7 +262,7 @@ EnvOf(s) == CASE s \in {"bi","ei"} -> "itemize" [] s \in {"be","ee"} -> "enumera
               [] s \in {"bu","eu"} -> "unk" [] s \in {"bl","el"} -> "lstlisting" [] s \in {"bm","em"} -> "minipage"
 
 AllSyms == Visible \cup ReplSyms \cup OpenSyms \cup BeginSyms \cup EndSyms \cup
-   {"sp","nl","tab","cm","lb","ix","uk","uk2","cb","skp","par","im","imp","ref","cite","skb","ske","q","fnq","it","fnm","vb","vbd","vbb","vrb","vrb2","ocb","ctc","rbk","up","uA","uBt","uH","hsu","phu","cmf","cmu","acb","ltE","ltD","gld","gls","ilc","tamp","tbsl","acc","hsp","hs0","phn","tbs","ntm","fct"} \cup DefSyms \cup MathSyms \cup FaultSyms \cup LangSyms
+   {"sp","nl","tab","cm","lb","ix","uk","uk2","cb","skp","par","im","imp","ref","cite","skb","ske","q","fnq","it","fnm","vb","vbd","vbb","vrb","vrb2","ocb","ctc","rbk","up","uA","uBt","uH","hsu","phu","cmf","cmu","acb","ltE","ltD","gld","gls","glsC","glsU","gle","dclF","ilc","tamp","tbsl","acc","hsp","hs0","phn","tbs","ntm","fct"} \cup DefSyms \cup MathSyms \cup FaultSyms \cup LangSyms
 
 (***************************************************************************)
 (* Reference state                                                         *)
@@ -270,7 +283,7 @@ Pos0(st) == Len(st.src)          \* 0-based offset of the next character = 1-bas
 
 CurLang(st) == st.lstack[Len(st.lstack)]
 Emit(st, items) == [st EXCEPT !.flows[CurFlow(st)] = @ \o [i \in 1..Len(items) |-> [items[i] EXCEPT !.lg = CurLang(st)]]]
-CwSyms == {"uk", "uk2", "par", "it", "fnm", "uA", "uH", "mal", "mnn", "tbs"}        \* symbols whose text ends with a control word
+CwSyms == {"uk", "uk2", "par", "it", "fnm", "uA", "uH", "uI", "mal", "mnn", "tbs"}        \* symbols whose text ends with a control word
 AddSrc(st, s) == [st EXCEPT !.src = @ \o Conc(s), !.cw = s \in CwSyms, !.vis = s \in Visible, !.ls = s]
 Feat(st, f) == [st EXCEPT !.feat = @ \cup {f}]
 \* text seen inside the innermost heading (for the dot rule) and in every enclosing frame
@@ -296,7 +309,7 @@ AllowedMath(st, s) ==
        /\ (s = "mcb" => fr.cnt > 0)
        /\ (s = "mob" => fr.cnt < 1 /\ last \notin {"msb"})
        /\ (fr.k = "math" /\ IsMPunct(last) => FALSE)            \* inline: punctuation only as the last character
-       /\ (s \in {"mam", "mnl"} => fr.nm = "ba" /\ fr.cnt = 0)
+       /\ (s \in {"mam", "mnl"} => fr.nm \in {"ba", "bat"} /\ fr.cnt = 0)
        /\ (s = "mnl" => RowFilled(body))            \* an empty row is a blank line for the line-removal pass (C05's matter)
        /\ (s = "mtx" => fr.cnt = 0)
 AllowedCtx(st, s) ==
@@ -306,7 +319,7 @@ AllowedCtx(st, s) ==
        ((Top(st).k = "skip" /\ s \in {"q","sp","nl","ske","uk","ob","cb","im","fnq"}) \/
         (Top(st).k = "rm" /\ s \in {"q","sp","nl","el","fnq"}))
   ELSE
-  /\ s \notin {"ske","el","q","fnq"} \cup DispBody \cup {"mc","mc2","ea","eq","ed","edd"}
+  /\ s \notin {"ske","el","q","fnq"} \cup DispBody \cup {"mc","mc2","ea","eat","eq","ed","edd"}
   /\ s \in DispOpen => ~InKind(st, "sec") /\ ~InKind(st, "arg") /\ ~InKind(st, "fn") /\ ~InKind(st, "marg")
   /\ s \in MathOpen => ~InKind(st, "marg") /\ ~InKind(st, "copt") /\ ~InKind(st, "mopt")
   \* a tie or thin space on an otherwise blank line is white space for the line-removal pass
@@ -320,13 +333,19 @@ AllowedCtx(st, s) ==
   /\ s = "eol" => st.ctx # <<>> /\ Top(st).k = "lenv" /\ Top(st).nm = "olD"
   /\ s = "eols" => st.ctx # <<>> /\ Top(st).k = "lenv" /\ Top(st).nm = "olsF"
   \* \selectlanguage inside a footnote is local to the footnote in LaTeX; the statement does not say more: not generated
+  /\ s = "dclF" => st.src = <<>>
   /\ s = "babD" => "babel-option" \notin st.feat          \* loading the package a second time has no effect
   /\ s \in LangSel => ~InKind(st, "fn") /\ ~InKind(st, "sec") /\ ~InKind(st, "arg") /\ (s = "babD" => st.ctx = <<>>)
   /\ s \in {"olD", "olsF"} => ~InKind(st, "sec") /\ ~InKind(st, "arg") /\ ~InKind(st, "fn") /\ ~InKind(st, "lang")
   /\ s \in {"flD", "flE", "flF"} => ~InKind(st, "sec")
   \* (the full stop added to a heading is attached to the last token of the heading; if that is the closing $ of a
   \*  formula it maps into the formula - legitimate, but it would blur C10's "text of the formula")
-  /\ (s = "cb" /\ st.ctx # <<>> /\ Top(st).k = "sec") => st.ls \notin {"mc", "mc2", "im", "imp"}
+  /\ (s = "cb" /\ st.ctx # <<>> /\ Top(st).k = "sec") => st.ls \notin {"mc", "mc2", "im", "imp", "uI"}
+  \* (a heading that ends in a thin space or a tie: whether that counts as its last character is not stated)
+  /\ (s = "cb" /\ st.ctx # <<>> /\ Top(st).k = "sec") => st.ls \notin {"thin", "tie"} /\ Top(st).last \notin {NBSP, NNBSP}
+  \* a formula in the argument of a user macro that drops or doubles its argument is typeset never or twice: the count of
+  \* formulas (rotation, C10) is then that of the expansion, which the formula list of the reference does not follow
+  /\ s \in {"im", "imp"} => ~\E i \in 1..Len(st.ctx) : st.ctx[i].k = "marg" /\ st.ctx[i].nm \in {"me", "md"}
   /\ s \in FaultSyms => st.ctx = <<>> /\ st.fault = <<>>
   /\ (st.fault # <<>> /\ st.fault[1].sym = "Fsk") => s \notin {"skb", "ske"}     \* a later END comment would close the region
   \* extraction mode (C18): listed macros are \footnote and \xfoo; they are not put into arguments of other known macros
@@ -348,7 +367,8 @@ AllowedCtx(st, s) ==
   /\ (st.ctx # <<>> /\ Top(st).k = "alt1") => s \in Visible \cup {"sp", "acb"}
   /\ s \in {"ltE", "ltD", "gld"} => st.ctx = <<>>
   /\ s \in {"hsu", "phu"} => ~InKind(st, "sec")
-  /\ s = "gls" => "glossary-loaded" \in st.feat /\ ~InKind(st, "sec")
+  /\ s \in {"gls", "glsC", "glsU"} => "glossary-loaded" \in st.feat /\ ~InKind(st, "sec")
+  /\ s = "gle" => st.ctx = <<>>
   \* (reading the file again executes its definition again)
   /\ s = "ocb" => st.ctx # <<>> /\ Top(st).k = "mopt"
   /\ s = "ctc" => st.ctx # <<>> /\ Top(st).k = "copt"
@@ -361,7 +381,7 @@ AllowedCtx(st, s) ==
   \* inside an optional argument: plain text and groups only
   /\ (st.ctx # <<>> /\ Top(st).k \in {"copt","mopt"}) => s \in Visible \cup {"sp","ob","ctc","ocb"}
   /\ (Len(st.ctx) >= 2 /\ Top(st).k = "grp" /\ st.ctx[Len(st.ctx)-1].k \in {"copt","mopt"}) => s \in Visible \cup {"sp","rbk","cb"}
-  /\ s \in UseSyms \cup {"cto"} => ~InKind(st, "sec")
+  /\ s \in (UseSyms \ {"uI"}) \cup {"cto"} => ~InKind(st, "sec")
   /\ s \in EndSyms => st.ctx # <<>> /\ Top(st).k = "env" /\ Top(st).last = EnvOf(s)
   /\ s = "it" => st.ctx # <<>> /\ Top(st).k = "env" /\ Top(st).last \in {"itemize","enumerate"}
   /\ s \in {"fn","cap"} => ~InKind(st, "fn")            \* nested detached flows: order not documented
@@ -453,7 +473,7 @@ Step(st, s) ==
     [] s = "tab" -> Emit(s1, <<It("ws", "", 0, 0, 0)>>)
     [] s = "nl"  -> Emit(s1, <<It("ws", "", 0, 0, 1)>>)
     [] s = "cm"  -> Emit(s1, <<Lay("cm")>>)
-    [] s \in {"lb","ix","skp"} -> Emit(s1, <<Lay("v")>>)
+    [] s \in {"lb","ix","skp","dclF"} -> Emit(s1, <<Lay("v")>>)
     [] s = "fnm" -> Emit(s1, <<Lay("x")>>)
     [] s = "uk"  -> AddUnk(Emit(s1, <<Lay("cw")>>), <<BS,"f","o","o">>)
     [] s = "uk2" -> AddUnk(Emit(s1, <<Lay("cw")>>), <<BS,"b","a","r">>)
@@ -499,6 +519,12 @@ Step(st, s) ==
     [] s = "uA" ->
          IF st.defs["ma"] = "none" THEN AddUnk(Emit(s1, <<Lay("cw")>>), <<BS,"m","a">>)
          ELSE NoteText(Emit(Feat(s1, "umacro"), <<Lay("x")>> \o ExpandBody(st.defs, st.defs["ma"], <<>>, p0+1, p1, 3) \o <<Lay("x"), Lay("cw")>>), "n")
+    [] s = "uI" ->
+         \* a formula generated by a macro: one placeholder, mapped into the call
+         IF st.defs["mi"] = "none" THEN AddUnk(Emit(s1, <<Lay("cw")>>), <<BS,"m","i">>)
+         ELSE NoteText(Emit([(IF InKind(st, "sec") THEN Feat(Feat(s1, "umacro"), "maths-in-heading") ELSE Feat(s1, "umacro")) EXCEPT !.nfml = @ + 1,
+                         !.fml = Append(@, [lo |-> p0+1, hi |-> p1, sp1 |-> FALSE, sp2 |-> FALSE, punct |-> "", lg |-> CurLang(st)])],
+                  <<Lay("x"), It("g", "phi", p0+1, p1, 1), Lay("x"), Lay("cw")>>), "P")
     [] s = "uH" ->
          \* only an optional parameter, omitted: the default text is generated text of this use
          IF st.defs["mh"] = "none" THEN AddUnk(Emit(s1, <<Lay("cw")>>), <<BS,"m","h">>)
@@ -541,6 +567,10 @@ Step(st, s) ==
     [] s = "gld" -> Emit(Feat(s1, "glossary-loaded"), <<Lay("v")>>)
     \* \gls{ab}: the text of the entry is generated text of this use
     [] s = "gls" -> NoteText(Emit(s1, <<Lay("x"), It("f", "a", p0+1, p1, 0), It("f", "b", p0+1, p1, 0), It("f", "t", p0+1, p1, 0), Lay("x")>>), "t")
+    [] s = "glsC" -> NoteText(Emit(s1, <<Lay("x"), It("f", "A", p0+1, p1, 0), It("f", "b", p0+1, p1, 0), It("f", "t", p0+1, p1, 0), Lay("x")>>), "t")
+    [] s = "glsU" -> NoteText(Emit(s1, <<Lay("x"), It("f", "A", p0+1, p1, 0), It("f", "B", p0+1, p1, 0), It("f", "T", p0+1, p1, 0), Lay("x")>>), "T")
+    [] s = "gle" -> NoteText(Emit(s1, <<Lay("x"), It("f", "A", p0+41, p0+41, 0), It("ws", "", 0, 0, 0), Lay("v"), It("c", "b", p0+44, p0+44, 0), Lay("v"),
+                                       It("ws", "", 0, 0, 0), It("c", "c", p0+47, p0+47, 0), It("f", ".", p0+1, p1, 0), Lay("x")>>), ".")
     [] s = "ltE" -> Emit(s1, <<Lay("v")>>)
     [] s = "ltD" -> [Emit(s1, <<Lay("v")>>) EXCEPT !.defs["ma"] = "dA"]
     [] s = "ocb" ->
@@ -617,10 +647,10 @@ Step(st, s) ==
          IF e = "lstlisting" THEN [Emit(s1, <<It("g", "ws", p0+1, p1, 0), Lay("pb")>>) EXCEPT !.ctx = Append(@, Frame("rm", CurFlow(st), p0))]
          ELSE IF e = "minipage" THEN [Emit(s1, <<It("g", "ws", p0+1, p1, 0), Lay("pb")>>) EXCEPT !.ctx = Append(@, fr)]
          ELSE IF e = "thm" THEN
-            \* \newtheorem{thm}{Tm}: a declared theorem-like environment forms a paragraph and starts with its title and a full stop;
+            \* \newtheorem{thm}{Tmmmmmmmmmmmm}: a declared theorem-like environment forms a paragraph and starts with its title and a full stop;
             \* used before its declaration it is an unknown environment
             IF "thm-declared" \in st.feat THEN
-               [Emit(s1, <<It("g", "ws", p0+1, p1, 0), Lay("pb"), Lay("x"), It("f", "T", p0+1, p1, 0), It("f", "m", p0+1, p1, 0), It("f", ".", p0+1, p1, 0),
+               [Emit(s1, <<It("g", "ws", p0+1, p1, 0), Lay("pb"), Lay("x"), It("f", "T", p0+1, p1, 0)>> \o [k \in 1..12 |-> It("f", "m", p0+1, p1, 0)] \o <<It("f", ".", p0+1, p1, 0),
                            It("g", "ws", p0+1, p1, 0), Lay("x")>>) EXCEPT !.ctx = Append(@, [fr EXCEPT !.nm = "declared"])]
             ELSE [AddUnk(Emit(s1, <<Lay("v")>>), <<"t","h","m">>) EXCEPT !.ctx = Append(@, fr)]
          ELSE IF e = "proof" THEN
